@@ -160,7 +160,7 @@ def make_cases(run):
                     cases.append(("corpus", bytes.fromhex(line.split()[-1]).decode("latin1")))
     cases += [("handmade", d) for d in G.HANDMADE]
     cases += [("boundary", d) for d in G.boundary_cases()]
-    nvalid, nunt, nmut, narb = (800, 120, 420, 80) if quick else (34000, 4000, 19000, 3000)
+    nvalid, nunt, nmut, narb = (800, 120, 420, 80) if quick else (17000, 2000, 9500, 1500)
     valid = []
     for _ in range(nvalid):
         valid.append(G.gen_valid(rng, maxpus=rng.choice([16, 64, 256, 512])))
@@ -282,6 +282,9 @@ def judge(run, cases, model, cres, exe, drv, limit):
                     if why == "reimport-rejected" and (fl & 1) and "Cache:" in r:
                         run.violation("roundtrip-noextended-cache-reimport", "export with NO_EXTENDED_TYPES prints caches as 'Cache:n', which hwloc_type_sscanf of this version rejects: the export does not load back",
                                       replay_text(desc, r))
+                    elif why == "structure-numa-memory-pairing":
+                        run.violation("roundtrip-numa-sizes-differ-across-parents", "NUMA nodes attached at two levels with identical cpusets become memory children of one parent ordered by os_index; with interleaved NUMA indexes that order differs between parents, hwloc_check_memory_symmetric only compares memory_arity, and the export prints the sizes of the first parent only: the re-imported topology pairs os_index and memory differently",
+                                      replay_text(desc, r))
                     elif why == "not-fixpoint" and (fl & 13) and r.split(" -> ")[0].count("Group:") > r.split(" -> ")[-1].count("Group:"):
                         run.violation("roundtrip-lossy-flags-group-dropped", "with NO_EXTENDED_TYPES/V1 (Die printed as Group) or IGNORE_MEMORY (Group above a NUMA level kept without its memory) the exported Group level brings no structure, is merged at re-import and the second export differs",
                                       replay_text(desc, r))
@@ -337,6 +340,11 @@ def wf_pass(run, cases, model, items):
             run.violation("wf-load", "description loaded by hwv_synthetic but not by hwv_topo: %r" % d[:80], replay_text(d, str(r["load"])), no_input=True)
         elif r["wf"] is None or not r["wf"].startswith("wf ok"):
             clauses = sorted(set(re.findall(r"([a-z-]+)@", r["wf"] or "")))
+            numa_idx = [l.split()[1] for l in model[str(idx)]["objs"] if l.startswith("M ")]
+            if "numa-os-index-duplicate" in clauses and len(set(numa_idx)) != len(numa_idx):
+                run.violation("explicit-numa-indexes-duplicate", "an explicit indexes= list with a duplicate is accepted for NUMA nodes: the loaded topology has two NUMA nodes with the same os_index (overlapping nodesets), hwloc_topology_check() aborts",
+                              replay_text(d, str(r["wf"]) + "\n" + str(r["check"])))
+                continue
             big = [int(x) for l in model[str(idx)]["L"] for x in re.findall(r"(?:mem=|att=|;)(\d+)", l) if int(x) >= 2 ** 56]
             if clauses == ["total-memory"] and big:
                 # memory=-1 and the like: the 64-bit total_memory sum wraps; WF sums in unbounded N
